@@ -68,7 +68,9 @@ class GroupingService:
             DataFrame with duplicate values replaced with null
         """
         # Create a mask for rows where the value is different from the previous row
-        is_first_occurrence = (df[column] != df[column].shift(1)) | (
+        # Null is a value of its own: compare with ne_missing so that a value
+        # following a null is a change rather than an unknown
+        is_first_occurrence = df[column].ne_missing(df[column].shift(1)) | (
             pl.int_range(df.height) == 0
         )  # First row is always shown
 
@@ -113,11 +115,15 @@ class GroupingService:
             conditions.append(pl.int_range(df.height) == 0)
 
             # Higher-level columns changed condition
+            # (evaluated on the original frame: the higher levels of result_df
+            # are already suppressed, and null counts as a value of its own)
             for higher_col in group_by[:i]:
-                conditions.append(pl.col(higher_col) != pl.col(higher_col).shift(1))
+                conditions.append(
+                    df[higher_col].ne_missing(df[higher_col].shift(1))
+                )
 
             # This column changed condition
-            conditions.append(pl.col(column) != pl.col(column).shift(1))
+            conditions.append(df[column].ne_missing(df[column].shift(1)))
 
             # Combine all conditions with OR
             should_show = conditions[0]
